@@ -677,6 +677,28 @@ def history_docs():
         c1.trans[0].cond = cond("in", s=tmp.ids["b2"])
         add(ROOT(pp, o), "deep-above-parallel" + ("-nested" if nested else ""), alphabet=["e1", "e2", "e3"])
 
+    # a transition from inside a state to that state's own history (the owner is a parallel or a compound state, the
+    # transition external or internal): the domain of the transition must be the one its exit set was computed with, and
+    # states that stay active are not entered again
+    for owner_par in (True, False):
+        for deep in (True, False):
+            for internal in (False, True):
+                q1, q2 = S("q1"), S("q2")
+                q = S("q", q1, q2)
+                hq = H("hq", deep=deep)
+                hq.t(None, q)
+                q1.t("e1", hq, internal=internal)
+                q1.t("e3", q2)
+                q2.t("e1", hq, internal=internal)
+                if owner_par:
+                    r1 = S("r1")
+                    own = P("own", hq, q, S("rr", r1))
+                else:
+                    own = S("own", hq, q)
+                own.t("e2", own)
+                add(ROOT(own), "own-history-%s-%s-%s" % ("par" if owner_par else "cmp", "deep" if deep else "shallow", "int" if internal else "ext"),
+                    alphabet=["e1", "e2", "e3"])
+
     # history as initial target and as target of an internal transition of the parent
     k1, k2, k3 = S("k1"), S("k2"), S("k3")
     hk = H("hk")
